@@ -418,6 +418,9 @@ func runMergeScenario(run *core.Run, seed int64, nChildren int, what string) (tv
 	var subs []string
 	stuck := false
 	steps := 3 + r.Intn(5)
+	if nChildren > 8 {
+		steps = 2 // every client message costs 2 x nChildren observations
+	}
 	for i := 0; i < steps && !stuck; i++ {
 		cj()
 		switch what {
@@ -604,6 +607,9 @@ func mergeCheck(run *core.Run, what string, n int) {
 		nChildren := 2 + i%2
 		if i%7 == 6 {
 			nChildren = 4
+		}
+		if what == "okcount" && i%9 == 8 {
+			nChildren = 13 + i%4 // many children: the aggregation must not depend on how many there are
 		}
 		tr, complete := runMergeScenario(run, run.Seed*100000+int64(i), nChildren, what)
 		if !complete {
